@@ -266,7 +266,7 @@ def run_compose(ctx):
     ctx.tlc("MC_Compose", "run.cfg", extra_files={"run.cfg": mc}, label="MC_Compose substitution closure / derivation / abstractness", timeout=1500)
     res = ctx.tlc("MC_Compose", "run.cfg", workers=1, simulate=f"num={ctx.pick(160, 4000)}", depth=18,      # (16 slots + the initial state)
                   extra_files={"run.cfg": "SPECIFICATION Spec\nCONSTANTS\n  MaxDocIdx = 5\nCONSTRAINT Emit\nCHECK_DEADLOCK FALSE\n"},
-                  label="Gen_Compose schemas and documents", tags=("CMP",), timeout=3000)
+                  label="Gen_Compose schemas and documents", tags=("CMP",), require_cases=True, timeout=3000)
     by = {}
     for _t, c in res.printed:
         if c["hasInstance"]:
@@ -304,11 +304,11 @@ def run(ctx):
     types = '{"int", "string", "boolean", "decimal", "date", "Color", "Ints", "IntsAnon", "IntOrStr", "ColorOrInt", "Kid", "FixedStr", "DefInt", "long"}'
     res = ctx.tlc("MC_Schema", "run.cfg", workers=1, simulate=f"num={ctx.pick(260, 6000)}", depth=13,
                   extra_files={"run.cfg": cfg(types, ctx.pick("OccsSmall", "OccsAll"), 6, emit=True)}, label="Gen_Schema schemas and documents",
-                  tags=("XSD",), timeout=3000)
+                  tags=("XSD",), require_cases=True, timeout=3000)
     # the fixed corpus (reproducers and rarely drawn shapes): replayed in every run
     corpus = ctx.tlc("MC_Schema", "run.cfg", workers=1,
                      extra_files={"run.cfg": f"INIT InitCorpus\nNEXT Next\nCONSTANTS\n  MaxDocIdx = 6\n  Types = {types}\n  Occs <- OccsAll\nCONSTRAINT Emit\nCHECK_DEADLOCK FALSE\n"},
-                     label="Gen_Schema fixed corpus", tags=("XSD",), timeout=1500)
+                     label="Gen_Schema fixed corpus", tags=("XSD",), require_cases=True, timeout=1500)
     by_schema = {}
     for _t, c in list(corpus.printed) + list(res.printed):
         k = json.dumps(c["schema"], sort_keys=True)
